@@ -278,7 +278,8 @@ class Run(RunBase):
             # to another k-mesh, an evaluation there, and back
             [{"op": "regrid", "n": ([g for g in self.w["grids"] if g != self.NGF] or [self.NGF])[0], "adopt": True},
              call(k1), call(k2), {"op": "regrid", "n": self.NGF, "adopt": True}]))
-        tail_ = [call(k2)] if rng.random() < 0.6 else [call(k2), call(k1)]
+        x_ = rng.random()
+        tail_ = [] if x_ < 0.25 else [call(k2)] if x_ < 0.7 else [call(k2), call(k1)]   # possibly nothing before the image
         if self.prop == "C13":
             mid = [self.gen_fork(rng)]
         else:
